@@ -602,6 +602,17 @@ def check_cases(ctx, cases, tag):
                 sig = classify(case, obs, k, v)
                 ctx.counterexample(sig, 'wait #%d (%s) of %s: %s; deadline %s, readings taken %s, ended at %s after %d wait() calls'
                                    % (k + 1, cis[k], describe(case), v, dl, rds[:6], it['t_exit'], it['waits']), replay)
+        # behind schedule (the first clock reading of the delay is already at or past its deadline) or a zero delay:
+        # the delay ends at once, without a single wait for the clock thread
+        for k, (v, dl) in enumerate(verdicts):
+            if k >= len(obs['items']) or cis[k][0] != 'D':
+                continue
+            it = obs['items'][k]
+            rds = [lk[0] for lk in it['looks'] if lk[4] == 'time']
+            num, den = dl.split('/')
+            if rds and Fraction(rds[0]) >= Fraction(int(num), int(den)) and it['waits'] > 0:
+                ctx.counterexample('C10/late-or-zero-delay-waits', 'wait #%d (%s) of %s was entered at %s, at or after its deadline %s, and still waited for %d tick(s)'
+                                   % (k + 1, cis[k], describe(case), rds[0], dl, it['waits']), replay)
         if len(verdicts) != len(obs['items']):
             k = max(0, len(verdicts) - 1)
             it = obs['items'][k]
